@@ -4,6 +4,7 @@
   The inspector of the model is the list of tokens it has been fed (the harness keeps `(count, hash)`, a function
   of that list); its checkpoint is a snapshot.
 -/
+import ChumskyModel.Proofs.Lemmas.ExtAll
 import ChumskyModel.Proofs.Lemmas.Top
 import ChumskyModel.Proofs.Lemmas.SpecInv
 import ChumskyModel.Proofs.Lemmas.PrattInv
@@ -115,6 +116,60 @@ theorem c18_recursive_pratt_fed (x : XEnv) (n : Nat) (env : Env) (hdefs : ∀ d 
     s.pos ≤ s'.pos ∧ s'.insp = s.insp ++ (env.toks.drop s.pos).take (s'.pos - s.pos) :=
   pegX_fed x n env hdefs hatom hops g hg s ctx h
 
+/-- **machine = reading in grammars with extensions** (`EEnv`: Pratt tables and nested-input parsers containing each other): after
+    a successful run the machine's inspector is the one of the reading — which never rewinds: through the operator rewinds of
+    `pratt_go` and across nested inputs (the inner parse continues the SAME inspector, `with_input` shares it, and what the inner
+    parse fed stays fed in the outer one) nothing an abandoned path fed survives and nothing the surviving path fed is lost -/
+theorem c18_extensions_machine_inspector (e : EEnv) (n : Nat) (env : Env) (m : Mode) (g : G) (st : St)
+    (hm : env.memoOn = false) :
+    match runE e n env m g st, pegE e n env g st.ss st.ctx with
+    | .ok _ st', .ok _ s' _ => st'.insp = s'.insp ∧ st'.pos = s'.pos
+    | .ok _ _, _ => False
+    | _, _ => True := by
+  have h := runE_refines e n env m g st hm
+  revert h
+  cases runE e n env m g st <;> cases pegE e n env g st.ss st.ctx <;> simp [Refines]
+  intro h
+  have := h.ss
+  simp [St.ss] at this
+  cases this
+  exact ⟨rfl, rfl⟩
+
+/-- the reading of a nested parse: the inner parse starts from the inspector state left by `b` and what it leaves is the
+    state after the nested parse — the inspector sees the group token and then the inner tokens the surviving inner path
+    consumed, in that order -/
+theorem c18_nested_inspector_threaded (P : SRunner) (h : HEnv) (env : Env) (s : SS) (ctx : Val) {v s' em}
+    (hok : nestedStepS P h env s ctx = .ok v s' em) :
+    ∃ vb s1 e1 kids si, P env h.b s ctx = .ok vb s1 e1 ∧ h.kidsOf vb = some kids ∧
+      (∃ e2, innerThenEndS (P (h.innerEnv env kids) h.a ⟨0, s1.insp⟩ ctx) (fun si1 => P (h.innerEnv env kids) .end_ si1 ctx)
+        = .ok v si e2) ∧ s' = ⟨s1.pos, si.insp⟩ := by
+  unfold nestedStepS at hok
+  cases hb : P env h.b s ctx with
+  | ok vb s1 e1 =>
+    rw [hb] at hok
+    simp only [SOut.andThen] at hok
+    cases hk : h.kidsOf vb with
+    | none => rw [hk] at hok; cases hok
+    | some kids =>
+      rw [hk] at hok
+      dsimp only at hok
+      generalize hi : innerThenEndS (P (h.innerEnv env kids) h.a ⟨0, s1.insp⟩ ctx)
+        (fun si1 => P (h.innerEnv env kids) .end_ si1 ctx) = o at hok
+      cases o with
+      | ok va si e2 =>
+        simp only [SOut.ok.injEq] at hok
+        obtain ⟨hv, hs, _⟩ := hok
+        subst hv
+        exact ⟨vb, s1, e1, kids, si, rfl, hk, ⟨e2, hi⟩, hs.symm⟩
+      | fail => cases hok
+      | panic w => cases hok
+      | oof => cases hok
+  | fail => rw [hb] at hok; simp [SOut.andThen] at hok
+  | panic w => rw [hb] at hok; simp [SOut.andThen] at hok
+  | oof => rw [hb] at hok; simp [SOut.andThen] at hok
+
+#print axioms c18_extensions_machine_inspector
+#print axioms c18_nested_inspector_threaded
 #print axioms c18_pratt_fed
 #print axioms c18_pratt_final_state
 #print axioms c18_recursive_pratt_fed
